@@ -31,11 +31,15 @@ VARIABLES l,
           shFree, shPend,
           readers,   \* sequence of snapshot ids of the open read-only transactions
           w,         \* the writer or NoW
-          dirty      \* data written since the last sync
+          dirty,     \* data written since the last sync
+          dec,       \* page images are decoded (FALSE: long runs that record headers and hooks only)
+          use,       \* growth bookkeeping for cyclic workloads (C10): [first, prevnp, pinned, n]
+          initing    \* init_file is creating the file (between init:created and init:synced)
 
-tvars == <<l, ps, pgs, metas, live, shFree, shPend, readers, w, dirty>>
+tvars == <<l, ps, pgs, metas, live, shFree, shPend, readers, w, dirty, dec, use, initing>>
 
 NoW == [txid |-> 0]
+NoUse == [first |-> -1, prevnp |-> -1, pinned |-> FALSE, n |-> 0, maxnp |-> 0]
 BadMeta == [txid |-> -1]
 BIG == 1000000000
 
@@ -55,10 +59,13 @@ UnionSeq(ss) == IF ss = <<>> THEN {} ELSE Head(ss) \cup UnionSeq(Tail(ss))
 (* Walk returns the pages of the subtree (with overflow pages), the set of  *)
 (* violated rules, and the smallest / largest key of the subtree.           *)
 (***************************************************************************)
-RECURSIVE Walk(_, _)
-Walk(pg, p) ==
+RECURSIVE WalkA(_, _, _)
+\* anc: the pages on the path from the root (a corrupt file may contain a cycle)
+WalkA(pg, p, anc) ==
     IF p \notin DOMAIN pg
     THEN [pages |-> {}, errs |-> {<<"page-never-written", p>>}, lo |-> BIG, hi |-> -1]
+    ELSE IF p \in anc \/ Cardinality(anc) > 24
+    THEN [pages |-> {}, errs |-> {<<"cycle", p>>}, lo |-> BIG, hi |-> -1]
     ELSE
     LET d   == pg[p]
         run == p..(p + d.ov)
@@ -71,7 +78,7 @@ Walk(pg, p) ==
             \cup E(d.used > d.len, "element-outside-written-bytes", p)
     IN
     IF d.ptype = 1 THEN
-        LET kids == [i \in 1..n |-> Walk(pg, d.elems[i][2])]
+        LET kids == [i \in 1..n |-> WalkA(pg, d.elems[i][2], anc \cup {p})]
             kp   == [i \in 1..n |-> kids[i].pages]
             all  == UnionSeq(kp)
         IN [pages |-> run \cup all,
@@ -88,7 +95,7 @@ Walk(pg, p) ==
     ELSE IF d.ptype = 2 THEN
         LET bidx == {i \in 1..n : d.elems[i][2] = 1 /\ d.elems[i][3] >= 2}
             bseq == SetToSeq(bidx)
-            subs == [j \in 1..Len(bseq) |-> Walk(pg, d.elems[bseq[j]][3])]
+            subs == [j \in 1..Len(bseq) |-> WalkA(pg, d.elems[bseq[j]][3], anc \cup {p})]
             sp   == [j \in 1..Len(bseq) |-> subs[j].pages]
             all  == UnionSeq(sp)
         IN [pages |-> run \cup all,
@@ -102,6 +109,8 @@ Walk(pg, p) ==
             lo |-> IF n = 0 THEN BIG ELSE d.elems[1][1],
             hi |-> IF n = 0 THEN -1 ELSE d.elems[n][1]]
     ELSE [pages |-> run, errs |-> common, lo |-> BIG, hi |-> -1]
+
+Walk(pg, p) == WalkA(pg, p, {})
 
 \* the snapshot a header describes: tree + free-list run, the persisted free ids, violations
 Snapshot(pg, m) ==
@@ -129,6 +138,7 @@ TInit ==
     /\ l = 1 /\ ps = 1024
     /\ pgs = <<>> /\ metas = [s \in {0, 1} |-> BadMeta] /\ live = <<>>
     /\ shFree = {} /\ shPend = <<>> /\ readers = <<>> /\ w = NoW /\ dirty = FALSE
+    /\ dec = TRUE /\ use = NoUse /\ initing = FALSE
 
 IsEv(e) == l <= Len(Rec) /\ Rec[l].ev = e /\ l' = l + 1
 Ev == Rec[l]
@@ -141,6 +151,7 @@ TReset ==      \* a new history on a fresh file
     /\ ps' = Ev.pagesize
     /\ pgs' = <<>> /\ metas' = [s \in {0, 1} |-> BadMeta] /\ live' = <<>>
     /\ shFree' = {} /\ shPend' = <<>> /\ readers' = <<>> /\ w' = NoW /\ dirty' = FALSE
+    /\ dec' = (IF "decode" \in DOMAIN Ev THEN Ev.decode ELSE TRUE) /\ use' = NoUse /\ initing' = FALSE
 
 \* a trace that starts on an existing file: the independent parse of that file
 TSeed ==
@@ -150,19 +161,25 @@ TSeed ==
                  Ev.pages[CHOOSE i \in 1..Len(Ev.pages) : Ev.pages[i][1] = p][2]]
     /\ metas' = [s \in {0, 1} |-> MetaOf(Ev.metas[s + 1])]
     /\ live' = <<>> /\ shFree' = {} /\ shPend' = <<>> /\ readers' = <<>> /\ w' = NoW /\ dirty' = FALSE
+    /\ dec' = TRUE /\ use' = NoUse /\ initing' = FALSE
 
 \* DBInner::open has chosen a header: PageStore!Recover
 TOpenMeta ==
     /\ IsEv("open:meta")
     /\ Check(CurSlot >= 0, "no-valid-header", <<>>)
-    /\ IF CurSlot < 0 THEN UNCHANGED <<ps, pgs, metas, live, shFree, shPend, readers, w, dirty>>
+    /\ IF CurSlot < 0 THEN UNCHANGED <<ps, pgs, metas, live, shFree, shPend, readers, w, dirty, dec, use, initing>>
+       ELSE IF ~dec
+       THEN \* without page contents: the list reloaded is the list the last commit persisted
+            /\ Check(Ev.tx_id = CurMeta.txid /\ Ev.slot = CurSlot, "header-choice", <<Ev.tx_id, Ev.slot>>)
+            /\ shFree' = shFree \cup UnionAll(shPend) /\ shPend' = <<>> /\ readers' = <<>> /\ w' = NoW
+            /\ UNCHANGED <<ps, pgs, metas, live, dirty, dec, use, initing>>
        ELSE LET m == CurMeta
                 s == Snapshot(pgs, m) IN
             /\ Check(Ev.tx_id = m.txid /\ Ev.slot = CurSlot, "header-choice", <<Ev.tx_id, Ev.slot, m.txid, CurSlot>>)
             /\ Check(s.errs = {}, "structure-at-open", s.errs)
             /\ shFree' = s.flist /\ shPend' = <<>> /\ readers' = <<>> /\ w' = NoW
             /\ live' = (m.txid :> s.pages) @@ live
-            /\ UNCHANGED <<ps, pgs, metas, dirty>>
+            /\ UNCHANGED <<ps, pgs, metas, dirty, dec, use, initing>>
 
 \* Tx::new has read the header
 TMetaRead ==
@@ -176,7 +193,7 @@ TMetaRead ==
                      alloc |-> {}, written |-> {}, np |-> CurMeta.np, fl |-> CurMeta.fl,
                      phase |-> "open", metaSynced |-> FALSE]
        ELSE UNCHANGED w
-    /\ UNCHANGED <<ps, pgs, metas, live, shFree, shPend, readers, dirty>>
+    /\ UNCHANGED <<ps, pgs, metas, live, shFree, shPend, readers, dirty, dec, use, initing>>
 
 Snaps == {readers[i] : i \in 1..Len(readers)}
 
@@ -192,13 +209,13 @@ TRelease ==
                           live[readers[i]] \cap UNION {w.pend[t] : t \in rel} = {},
                      "reader-page-released", <<b, readers>>)
             /\ w' = [w EXCEPT !.free = @ \cup UNION {w.pend[t] : t \in rel}, !.pend = pend2]
-    /\ UNCHANGED <<ps, pgs, metas, live, shFree, shPend, readers, dirty>>
+    /\ UNCHANGED <<ps, pgs, metas, live, shFree, shPend, readers, dirty, dec, use, initing>>
 
 \* a read-only transaction is ready / goes away (hooks outside the registry code)
 TReady ==
     /\ IsEv("tx:ready")
     /\ IF Ev.w = 0 THEN readers' = Append(readers, Ev.tx_id) ELSE UNCHANGED readers
-    /\ UNCHANGED <<ps, pgs, metas, live, shFree, shPend, w, dirty>>
+    /\ UNCHANGED <<ps, pgs, metas, live, shFree, shPend, w, dirty, dec, use, initing>>
 
 RemoveOne(seq, x) ==
     LET idx == {i \in 1..Len(seq) : seq[i] = x} IN
@@ -209,17 +226,17 @@ TDropEnter ==
     /\ IsEv("drop:enter")
     /\ IF Ev.w = 0 THEN readers' = RemoveOne(readers, Ev.tx_id) /\ UNCHANGED w
        ELSE readers' = readers /\ w' = NoW
-    /\ UNCHANGED <<ps, pgs, metas, live, shFree, shPend, dirty>>
+    /\ UNCHANGED <<ps, pgs, metas, live, shFree, shPend, dirty, dec, use, initing>>
 
 TFree ==
     /\ IsEv("fl:free")
     /\ IF w = NoW THEN Rep("free-outside-writer", <<Ev.page, Ev.n>>) /\ UNCHANGED w
        ELSE LET run == Run(Ev.page, Ev.n) IN
-            /\ Check(run \subseteq w.tree, "free-of-page-not-owned", <<Ev.page, Ev.n>>)
+            /\ Check(~dec \/ run \subseteq w.tree, "free-of-page-not-owned", <<Ev.page, Ev.n>>)
             /\ Check(run \cap (w.free \cup UnionAll(w.pend)) = {}, "double-free", <<Ev.page, Ev.n>>)
             /\ Check(\A x \in run : x >= 2, "free-of-header-page", <<Ev.page, Ev.n>>)
             /\ w' = [w EXCEPT !.tree = @ \ run, !.pend = AddPend(w.pend, w.txid, run)]
-    /\ UNCHANGED <<ps, pgs, metas, live, shFree, shPend, readers, dirty>>
+    /\ UNCHANGED <<ps, pgs, metas, live, shFree, shPend, readers, dirty, dec, use, initing>>
 
 \* pages of every snapshot that must stay untouched: the current header's (what a crash now
 \* recovers to) and every open reader's.  The OLDER header's pages are recycled by design as
@@ -238,23 +255,23 @@ TAlloc ==
                      <<Ev.num_pages, w.np>>)
             /\ w' = [w EXCEPT !.free = @ \ run, !.tree = @ \cup run, !.alloc = @ \cup run,
                               !.np = Ev.num_pages]
-    /\ UNCHANGED <<ps, pgs, metas, live, shFree, shPend, readers, dirty>>
+    /\ UNCHANGED <<ps, pgs, metas, live, shFree, shPend, readers, dirty, dec, use, initing>>
 
 TFlAlloc ==
     /\ IsEv("commit:fl_alloc")
     /\ w' = IF w = NoW THEN w ELSE [w EXCEPT !.fl = Ev.page, !.phase = "data"]
-    /\ UNCHANGED <<ps, pgs, metas, live, shFree, shPend, readers, dirty>>
+    /\ UNCHANGED <<ps, pgs, metas, live, shFree, shPend, readers, dirty, dec, use, initing>>
 
 \* the file must be long enough before anything beyond the old end is written (C16 growth)
 TSized ==
     /\ IsEv("commit:sized")
-    /\ UNCHANGED <<ps, pgs, metas, live, shFree, shPend, readers, w, dirty>>
+    /\ UNCHANGED <<ps, pgs, metas, live, shFree, shPend, readers, w, dirty, dec, use, initing>>
 
 TWritePage ==
     /\ IsEv("write") /\ Ev.kind = "page"
     /\ LET run == Run(Ev.page, Ev.n) IN
-       IF DOMAIN live = {}
-       THEN \* file initialisation (pages 2 and 3): no header has been chosen yet
+       IF initing
+       THEN \* file initialisation (pages 2 and 3)
             /\ pgs' = (Ev.page :> Ev.pg) @@ pgs
             /\ UNCHANGED <<w, dirty>>
        ELSE /\ Check(w # NoW, "write-outside-commit", <<Ev.page, Ev.n>>)
@@ -267,50 +284,59 @@ TWritePage ==
             /\ pgs' = (Ev.page :> Ev.pg) @@ pgs
             /\ w' = IF w = NoW THEN w ELSE [w EXCEPT !.written = @ \cup {Ev.page}]
             /\ dirty' = TRUE
-    /\ UNCHANGED <<ps, metas, live, shFree, shPend, readers>>
+    /\ UNCHANGED <<ps, metas, live, shFree, shPend, readers, dec, use, initing>>
 
 TSync ==
     /\ IsEv("sync")
     /\ dirty' = FALSE
     /\ w' = IF w # NoW /\ w.phase = "meta-written" THEN [w EXCEPT !.metaSynced = TRUE] ELSE w
-    /\ UNCHANGED <<ps, pgs, metas, live, shFree, shPend, readers>>
+    /\ UNCHANGED <<ps, pgs, metas, live, shFree, shPend, readers, dec, use, initing>>
 
 TWriteMeta ==
     /\ IsEv("write") /\ Ev.kind = "meta"
     /\ LET m == MetaOf(Ev.meta) IN
        IF w = NoW
        THEN \* file initialisation writes both slots; anything else is a write outside a commit
-            /\ Check(DOMAIN live = {}, "header-write-outside-commit", <<Ev.page>>)
+            /\ Check(initing, "header-write-outside-commit", <<Ev.page>>)
             /\ metas' = [metas EXCEPT ![Ev.page] = m]
             /\ UNCHANGED <<live, w>>
        ELSE LET s == Snapshot(pgs, m) IN
             /\ Check(m.txid >= 0, "invalid-header-written", <<Ev.page>>)
             /\ Check(Ev.page # w.base, "header-over-the-current-slot", <<Ev.page, w.base>>)
-            /\ Check(Ev.len = ps, "header-not-whole-page", <<Ev.len>>)
+            /\ Check(Ev.short \/ Ev.len = ps, "header-not-whole-page", <<Ev.len>>)
             /\ Check(m.txid < 0 \/ (m.txid = w.txid /\ m.np = w.np /\ m.fl = w.fl /\ m.slot = Ev.page /\ m.pagesize = ps),
                      "header-fields", <<m, w.txid, w.np, w.fl>>)
             /\ Check((w.tree \cap w.alloc) \subseteq UNION {Run(p, pgs[p].ov + 1) : p \in w.written \cap DOMAIN pgs},
                      "allocated-page-not-written", (w.tree \cap w.alloc))
             /\ Check(~NeedSyncBeforeMeta \/ ~dirty, "header-before-data-sync", <<w.txid>>)
-            /\ Check(m.txid < 0 \/ s.errs = {}, "structure", s.errs)
-            /\ Check(m.txid < 0 \/ s.pages = w.tree, "reachable-vs-owned",
+            /\ Check(~dec \/ m.txid < 0 \/ s.errs = {}, "structure", s.errs)
+            /\ Check(~dec \/ m.txid < 0 \/ s.pages = w.tree, "reachable-vs-owned",
                      <<s.pages \ w.tree, w.tree \ s.pages>>)
-            /\ Check(m.txid < 0 \/ s.flist = w.free \cup UnionAll(w.pend), "persisted-freelist",
+            /\ Check(~dec \/ m.txid < 0 \/ s.flist = w.free \cup UnionAll(w.pend), "persisted-freelist",
                      <<s.flist, w.free, w.pend>>)
             /\ metas' = [metas EXCEPT ![Ev.page] = m]
-            /\ live' = IF m.txid >= 0 THEN (m.txid :> s.pages) @@ live ELSE live
+            /\ live' = IF dec /\ m.txid >= 0 THEN (m.txid :> s.pages) @@ live ELSE live
             /\ w' = [w EXCEPT !.phase = "meta-written"]
-    /\ UNCHANGED <<ps, pgs, shFree, shPend, readers, dirty>>
+    /\ UNCHANGED <<ps, pgs, shFree, shPend, readers, dirty, dec, use, initing>>
 
 TPublished ==
     /\ IsEv("commit:published")
     /\ IF w = NoW THEN Rep("publish-outside-writer", <<>>) /\ UNCHANGED <<shFree, shPend>>
-       ELSE /\ Check(w.phase = "meta-written" /\ w.metaSynced, "publish-before-sync", <<w.txid>>)
+       ELSE \* (on the error path the list is published without a completed sync: the header may
+            \* be visible in the file although commit reports the failure)
+            /\ Check(w.phase = "meta-written", "publish-before-header", <<w.txid>>)
             /\ shFree' = w.free /\ shPend' = w.pend
-    /\ UNCHANGED <<ps, pgs, metas, live, readers, w, dirty>>
+    /\ UNCHANGED <<ps, pgs, metas, live, readers, w, dirty, dec, use, initing>>
+
+\* commit is about to return Ok: the header must have been synced
+TCommitDone ==
+    /\ IsEv("commit:done")
+    /\ IF w = NoW THEN TRUE ELSE Check(w.metaSynced, "commit-ok-before-header-sync", <<w.txid>>)
+    /\ UNCHANGED <<ps, pgs, metas, live, shFree, shPend, readers, w, dirty, dec, use, initing>>
 
 \* with no writer inside, the shared lists are what the current header persisted (C11)
 FLConsistentNow ==
+    ~dec \/
     LET m == CurMeta
         f == IF m.fl \in DOMAIN pgs /\ pgs[m.fl].ptype = 4 THEN {pgs[m.fl].ids[i] : i \in 1..Len(pgs[m.fl].ids)} ELSE {}
     IN  shFree \cup UnionAll(shPend) = f
@@ -321,7 +347,7 @@ TDropDone ==
     /\ IF Ev.w = 1 /\ CurSlot >= 0
        THEN Check(FLConsistentNow, "shared-freelist-vs-header", <<shFree, shPend, CurMeta.txid>>)
        ELSE TRUE
-    /\ UNCHANGED <<ps, pgs, metas, live, shFree, shPend, readers, w, dirty>>
+    /\ UNCHANGED <<ps, pgs, metas, live, shFree, shPend, readers, w, dirty, dec, use, initing>>
 
 \* the final whole-file parse must show what the write events built
 TParse ==
@@ -334,16 +360,40 @@ TParse ==
           /\ Check(\A s \in {0, 1} : MetaOf(Ev.metas[s + 1]).txid = metas[s].txid, "file-headers", <<>>)
           /\ Check(\A i \in 1..Len(P) : P[i][1] \in DOMAIN pgs /\ same(pgs[P[i][1]], P[i][2]), "file-page-differs",
                    {P[i][1] : i \in {j \in 1..Len(P) : ~(P[j][1] \in DOMAIN pgs /\ same(pgs[P[j][1]], P[j][2]))}})
-    /\ UNCHANGED <<ps, pgs, metas, live, shFree, shPend, readers, w, dirty>>
+    /\ UNCHANGED <<ps, pgs, metas, live, shFree, shPend, readers, w, dirty, dec, use, initing>>
 
-Known == {"reset", "seed", "open:meta", "tx:meta_read", "fl:release", "tx:ready", "drop:enter", "fl:free", "fl:alloc",
-          "commit:fl_alloc", "commit:sized", "write", "sync", "commit:published", "drop:done", "parse"}
+\* C10: a cyclic workload returns to the same logical content at every "cycle" marker.  Pages in
+\* use (high-water mark minus free and pending) must not grow with the number of cycles, and
+\* the file must stop growing once no reader has been pinning pages for two cycles.
+InUse == CurMeta.np - 2 - Cardinality(shFree \cup UnionAll(shPend))
+TCycle ==
+    /\ IsEv("cycle")
+    /\ LET u == InUse
+           pin == Len(readers) > 0 \/ Ev.pinned
+       IN /\ Check(use.first < 0 \/ u <= 3 * use.first + 16, "pages-in-use-grow-with-bounded-data",
+                   <<use.n, u, use.first>>)
+          \* (fragmentation of multi-page runs makes small late extensions legitimate: the gate is a
+          \* generous multiple of the pages in use, not "no growth"; it is suspended while and
+          \* shortly after a reader pins pages, and never looks at the pages a reader pinned)
+          /\ Check(use.n < 3 \/ pin \/ use.pinned \/ CurMeta.np <= use.maxnp + 4 * MaxOf({u, use.first}) + 64,
+                   "file-grows-with-bounded-data", <<use.n, CurMeta.np, u, use.first>>)
+          /\ use' = [first |-> IF use.n = 1 THEN u ELSE use.first, prevnp |-> CurMeta.np, pinned |-> pin,
+                     n |-> use.n + 1, maxnp |-> IF pin THEN CurMeta.np ELSE use.maxnp]
+    /\ UNCHANGED <<ps, pgs, metas, live, shFree, shPend, readers, w, dirty, dec, initing>>
+
+TInitFile ==
+    /\ l <= Len(Rec) /\ Rec[l].ev \in {"init:created", "init:synced"} /\ l' = l + 1
+    /\ initing' = (Rec[l].ev = "init:created")
+    /\ UNCHANGED <<ps, pgs, metas, live, shFree, shPend, readers, w, dirty, dec, use>>
+
+Known == {"reset", "seed", "cycle", "init:created", "init:synced", "open:meta", "tx:meta_read", "fl:release", "tx:ready", "drop:enter", "fl:free", "fl:alloc",
+          "commit:fl_alloc", "commit:sized", "write", "sync", "commit:published", "commit:done", "drop:done", "parse"}
 TOther ==
     /\ l <= Len(Rec) /\ Rec[l].ev \notin Known /\ l' = l + 1
-    /\ UNCHANGED <<ps, pgs, metas, live, shFree, shPend, readers, w, dirty>>
+    /\ UNCHANGED <<ps, pgs, metas, live, shFree, shPend, readers, w, dirty, dec, use, initing>>
 
-TNext == TReset \/ TSeed \/ TOpenMeta \/ TMetaRead \/ TRelease \/ TReady \/ TDropEnter \/ TFree \/ TAlloc \/ TFlAlloc
-         \/ TSized \/ TWritePage \/ TSync \/ TWriteMeta \/ TPublished \/ TDropDone \/ TParse \/ TOther
+TNext == TReset \/ TSeed \/ TCycle \/ TInitFile \/ TOpenMeta \/ TMetaRead \/ TRelease \/ TReady \/ TDropEnter \/ TFree \/ TAlloc \/ TFlAlloc
+         \/ TSized \/ TWritePage \/ TSync \/ TWriteMeta \/ TPublished \/ TCommitDone \/ TDropDone \/ TParse \/ TOther
 
 TSpec == TInit /\ [][TNext]_tvars
 
